@@ -39,6 +39,9 @@ ASSUMPTIONS.append('items pushed into a heap are ordered by a strict weak '
                    'incomparability): no NaN scores')
 
 
+ITEM_HOOKS = {'lift': None, 'reflect': None}
+
+
 class VListRef(V):
   kind = 'listref'
 
@@ -47,6 +50,23 @@ class VListRef(V):
 
   def flatten(self):
     return [self.ref]
+
+  def py_iter(self, ex, node):
+    """Iterate a list of heap items: the k-th element is some item of the
+    list's bag; the sidecar's `lift` hook turns it into an object view."""
+    h = lheap(ex.ctx)
+    ref = self.ref
+    bag = z3.Select(h['bag'], ref)
+    lift = ITEM_HOOKS['lift']
+    if lift is None:
+      ex.unsupported(node, 'iteration over a list of abstract items')
+
+    def elem(c, k):
+      it = z3.Const(c.sym('item'), ItemSort)
+      c.assume(z3.Select(bag, it) >= 1)
+      return lift(c, it)
+
+    return loopmod.VIter(z3.Select(h['len'], ref), elem)
 
   def __repr__(self):
     return 'ListRef(%s)' % self.ref
@@ -351,6 +371,7 @@ def _copy(ex, args, kwargs, node):
     new = ctx.new_object(v.cls, v.cls.lower() + '_copy')
     for f, fv in ctx.objects[v.oid].fields.items():
       ctx.objects[new.oid].fields[f] = fv
+    new.copy_of = getattr(v, 'copy_of', v.oid)
     return new
   if hasattr(v, 'clone'):
     return v.clone()
